@@ -11,6 +11,7 @@ open OciModel OciModel.Unify
     uni u mem <op…>            the operation through the unifier (policy of the case)
     uni alt mem <op…>          a read through a unifier with the other policy
     uni snap                   are the members observably equal?
+    uni fault <method> <member> <n> <code>   impl-only: the n-th call of one method on one member fails (answer `skip`)
     uni merge <k> <events0> <events1>   mergeIter over two scripted listings, consumer declining call k
 
 Upload IDs: the composite ID of the real unifier is base64url(JSON [id0,id1]);
@@ -139,6 +140,7 @@ def drive (st : St) : List String → St × String
       let (_, out) := step H codec (other st.pol) true st.u op
       (st, showU (other st.pol == .concurrent && isDigestRead op) out)
   | ["diverge", _, _] => (st, "skip")   -- a one-sided member fault: judged by the oracle
+  | "fault" :: _ => (st, "skip")        -- a fault injected into ONE member's n-th call: impl-only, judged by the oracle
   | ["snap"] => (st, if obs st.u.m0 == obs st.u.m1 then "equal" else "differ")
   | ["merge", k, e0, e1] =>
     match k.toNat?, parseEvents e0, parseEvents e1 with
